@@ -44,13 +44,14 @@ class C15(Prop):
     theorems = ["NV.C15.legalPath_eq_spec", "NV.C15.legal_path_spec", "NV.C15.legal_path_secure",
                 "NV.C15.legal_path_safe", "NV.C15.check_valid_path_eq_spec", "NV.C15.check_valid_path_sound",
                 "NV.C15.check_valid_path_denied", "NV.C15.strip_name_relative", "NV.C15.load_open_confined",
-                "NV.C15.load_probe_relative", "NV.C15.include_path_confined", "NV.C15.judge_lp_model",
+                "NV.C15.load_probe_confined", "NV.C15.include_path_confined", "NV.C15.inc_dir_ok",
+                "NV.C15.include_path_confined_config", "NV.C15.judge_lp_model",
                 "NV.C15.judge_cvp_model", "NV.C15.judge_inc_model", "NV.C15.judge_sn_model",
                 "NV.C15.mediated_sites", "NV.C15.inventory_covers_efuns"]
     witness_theorems = ["NV.C15.include_normaliser_not_confined", "NV.C15.include_normaliser_trailing_dotdot",
                         "NV.C15.include_normaliser_slash_quirk", "NV.C15.include_unguarded_escapes",
                         "NV.C15.include_unguarded_escapes_dotdot", "NV.C15.include_empty_dir_absolute",
-                        "NV.C15.load_probe_not_confined"]
+                        "NV.C15.include_normaliser_quirk_duplicates"]
     consts = [("pathMax", "PATH_MAX"), ("maxObjectNameSize", "MAX_OBJECT_NAME_SIZE"),
               ("saveExtLen", "(sizeof SAVE_EXTENSION) - 1"), ("saveExtDot", "SAVE_EXTENSION[0]"),
               ("saveExtO", "SAVE_EXTENSION[1]")]
@@ -93,8 +94,13 @@ class C15(Prop):
     def gen_extra(self, ctx, bdir):
         sys.path.insert(0, os.path.join(E.VERIF, "tools"))
         import c15_sites
+        import re
+        m = re.search(r"^#define\s+INC_BUF_SIZE\s+(\d+)", open(os.path.join(E.REPO, "lib/lpc/lex.c")).read(), re.M)
+        if not m:
+            raise X.TieBroken("const:INC_BUF_SIZE", "lib/lpc/lex.c no longer defines INC_BUF_SIZE")
+        head = "/-- lib/lpc/lex.c: `#define INC_BUF_SIZE` -/\ndef incBufSize : Nat := %s\n\n" % m.group(1)
         try:
-            return c15_sites.generate(E.REPO, bdir, E.include_flags(bdir))
+            return head + c15_sites.generate(E.REPO, bdir, E.include_flags(bdir))
         except c15_sites.SitesError as e:
             raise X.TieBroken("sites:" + str(getattr(e, "site", "?")), "call-site inventory failed: %s" % e)
 
@@ -102,6 +108,10 @@ class C15(Prop):
     def prepare(self, ctx):
         self.exe = E.compile_harness("c15", [os.path.join(E.VERIF, "harness/c15/c15.c")], extra=("-ldl",))
         self.conf = E.make_mudlib(ctx.rundir, master="/c15/master.c")
+        # include search path "/include:/" : the second entry is the mudlib directory itself (stored as ".")
+        t = open(self.conf).read()
+        t = "\n".join("IncludeDir\t/include:/" if l.startswith("IncludeDir") else l for l in t.splitlines()) + "\n"
+        open(self.conf, "w").write(t)
 
     def run_impl(self, ctx, cases):
         return E.run_harness(self.exe, self.conf, cases, ctx.rundir, args=("--timeout", "120"))
